@@ -4,6 +4,8 @@ import LC.Props.C17
 #print axioms LC.V1Glue.findAll_first
 #print axioms LC.V1Glue.exact_token_range
 #print axioms LC.V1Glue.exact_token_range_trailing
+#print axioms LC.V1Glue.exact_reports_occurrence
+#print axioms LC.V1Glue.exactBytes_inside
 #print axioms LC.V1Glue.nearest_exact
 #print axioms LC.V1Tok.tokenize_faithful
 #print axioms LC.V1Tok.encode_decode
